@@ -110,11 +110,19 @@ CLAIMED = {
             "statement, InvalidPropertyException names the first offending property, NotImplementedError iff warps, no other outcome; "
             "every case is replayed; random sources x mappings x templates and sm_to_ssc round trips are validated call by call by TLC.",
             "SSC-only values are strings (key-only None outside the domain); chart keys SM cannot hold are the recorded known finding; blank-only WARPS unclaimed."),
+    "C14": ("beat", "6/C14",
+            "TLC checks on every tick of the +-2000-beat range that the three-decimal form reads back as the same tick, is strictly "
+            "increasing (injective), and periodic (which extends it to the whole grid), and on every pair of small rationals under "
+            "every operator that arithmetic is exact, closed and satisfies the algebraic identities; every tick and every (a, op, b) is "
+            "replayed on real Beat objects with Beat / int / Fraction operands; random constructions from exact and inexact inputs, "
+            "operations, event lists and timing strings (through BeatValues and TimingData) are validated record by record by TLC.",
+            "32-bit TLC integers: inexact inputs are exact binary fractions and short decimals; arbitrary floats are not decided."),
 }
 
 PENDING = {}
 
 ENGINES = [
+    ("beat", "spec/beat", ["C14"], "Beat.tla (exact / snapped construction, Str3 closed form, arithmetic, decimal and event-list parsing) + MC_Beat + Trace_Beat"),
     ("convert", "spec/convert", ["C16", "C17"],
      "Convert.tla (kind tables, behaviour decision, conversion folds + declarative statement) + MC_Convert (TLC BFS) + Trace_Convert"),
     ("library", "spec/library", ["C05", "C06"],
